@@ -1,10 +1,12 @@
 package main
 
 import (
+	"encoding/json"
 	"errors"
 	"fmt"
 	"sort"
 	"strings"
+	"sync/atomic"
 	"time"
 
 	"github.com/trustbloc/sidetree-core-go/pkg/api/operation"
@@ -69,8 +71,11 @@ func canonReq(b []byte) string {
 	return ref.MustJCSString(v)
 }
 
+// c15Hung is set when an observer did not return within the progress bound.
+var c15Hung int32
+
 func checkC15(c *hx.Ctx) {
-	c.Rule("(1) sequences of 1-6 transactions (valid batches written by the real OperationHandler, malformed anchor strings, missing / corrupt batch files, unknown namespace, unknown protocol version, duplicate-carrying transactions through a stub provider, hand-made batch files listing one DID twice read by the real provider) delivered in 1-3 ledger notifications to the REAL Observer goroutine (race detector on) with ONE injected fault per run enumerated over every position: each CAS file of each transaction, the store Put of each transaction; oracle over the recorded store.Put calls: per processable transaction exactly one Put holding one operation per suffix (the first) stamped with the transaction's time, number, protocol version, canonical and equivalent references, nothing for a failed one, later transactions still processed, configured unpublished operations deleted; (2) DocumentHandler.ProcessOperation over sequences of valid and refused operations with an unpublished-store Put failure / writer Add failure at every call index: refused or failed operations leave no trace in the writer and in the unpublished store, also with the REAL batch.Writer (accepting, then stopped) in front of the real in-memory queue; non-trivial = run with a fault or a failing transaction; distinct = distinct (sequence, fault)")
+	c.Rule("(1) sequences of 1-6 transactions (valid batches written by the real OperationHandler, malformed anchor strings, missing / corrupt batch files (not gzip, truncated body, damaged body, missing trailer), unknown namespace, unknown protocol version, duplicate-carrying transactions through a stub provider, hand-made batch files listing one DID twice read by the real provider) delivered in 1-3 ledger notifications to the REAL Observer goroutine (race detector on) with ONE injected fault per run enumerated over every position: each CAS file of each transaction, the store Put of each transaction; oracle over the recorded store.Put calls: per processable transaction exactly one Put holding one operation per suffix (the first) stamped with the transaction's time, number, protocol version, canonical and equivalent references, nothing for a failed one, later transactions still processed, configured unpublished operations deleted; (2) DocumentHandler.ProcessOperation over sequences of valid and refused operations with an unpublished-store Put failure / writer Add failure at every call index: refused or failed operations leave no trace in the writer and in the unpublished store, also with the REAL batch.Writer (accepting, then stopped) in front of the real in-memory queue; non-trivial = run with a fault or a failing transaction; distinct = distinct (sequence, fault)")
 	c.Set("race_detector_enabled", raceEnabled)
 	p := c13Proto(ref.SHA256)
 	p2 := c13Proto(ref.SHA256)
@@ -165,12 +170,40 @@ func checkC15(c *hx.Ctx) {
 					c.Inconclusive("unexpected file set shape")
 					return
 				}
-				u[1], pp[1], dl[1] = ref.CopyTree(u[0]), pp[0], ref.CopyTree(dl[0])
+				if r.Bool() {
+					u[1], pp[1], dl[1] = ref.CopyTree(u[0]), pp[0], ref.CopyTree(dl[0])
+				} else {
+					// the other shape: a DID created in the core index file and updated in the provisional index file of the same
+					// transaction (a create entry is added to the core index, its delta to the chunk file)
+					var cre *batchOp
+					for _, d := range r.Perm(len(bp)) {
+						if bp[d][0].Type == "create" && bp[d][0].Suffix != ups[0].Suffix && bp[d][0].Suffix != ups[1].Suffix {
+							cre = bp[d][0]
+							break
+						}
+					}
+					var creq map[string]interface{}
+					if cre == nil || json.Unmarshal(cre.Req, &creq) != nil {
+						continue
+					}
+					ci := asMap(fs.Trees["core-index"])
+					ops, _ := ci["operations"].(map[string]interface{})
+					if ops == nil {
+						ops = map[string]interface{}{}
+						ci["operations"] = ops
+					}
+					ops["create"] = []interface{}{map[string]interface{}{"suffixData": creq["suffixData"]}}
+					asMap(fs.Trees["chunk"])["deltas"] = append([]interface{}{creq["delta"]}, dl...)
+					asMap(u[0])["didSuffix"] = cre.Suffix
+					pl.Txn.AnchorString = "3." + fs.URI["core-index"]
+				}
 				for uri, b64 := range fs.encode(nil) {
 					raw, _ := ref.UnB64(b64)
 					cas.M[uri] = raw
 				}
-				pl.Txn.AnchorString = fmt.Sprintf("2.%s", fs.URI["core-index"])
+				if pl.Txn.AnchorString == "" || !strings.HasPrefix(pl.Txn.AnchorString, "3.") {
+					pl.Txn.AnchorString = fmt.Sprintf("2.%s", fs.URI["core-index"])
+				}
 				pl.Expect = nil
 			case "dup":
 				pl.Txn.ProtocolVersion = p2.GenesisTime
@@ -226,7 +259,20 @@ func checkC15(c *hx.Ctx) {
 					pl.Expect = nil
 				case "corrupt-file":
 					u := hx.Pick(r, pl.Files)
-					cas.M[u] = append([]byte("corrupt"), cas.M[u]...)
+					orig := cas.M[u]
+					switch r.Intn(4) {
+					case 0: // not gzip at all
+						cas.M[u] = append([]byte("corrupt"), orig...)
+					case 1: // intact gzip header, body cut off
+						cas.M[u] = append([]byte{}, orig[:len(orig)*3/5]...)
+					case 2: // intact header and length, a byte of the body damaged (checksum / inflate error)
+						b := append([]byte{}, orig...)
+						b[len(b)/2] ^= 0x5a
+						b[len(b)/2+1] ^= 0xa5
+						cas.M[u] = b
+					default: // trailer cut off
+						cas.M[u] = append([]byte{}, orig[:len(orig)-5]...)
+					}
 					pl.Expect = nil
 				case "unknown-namespace":
 					pl.Txn.Namespace = "did:other"
@@ -264,6 +310,9 @@ func checkC15(c *hx.Ctx) {
 			faults = keep
 		}
 		for _, f := range faults {
+			if atomic.LoadInt32(&c15Hung) == 1 {
+				return // a hung observer may hold process-wide resources: nothing after it can be trusted
+			}
 			c.Eval()
 			// fresh components per run
 			store := hx.NewOpStore()
@@ -316,16 +365,33 @@ func checkC15(c *hx.Ctx) {
 			if len(plans) > 1 && r.Bool() {
 				cuts = []int{1 + r.Intn(len(plans)-1), len(plans)}
 			}
-			start := 0
-			for _, end := range cuts {
-				var batch []txn.SidetreeTxn
-				for _, pl := range plans[start:end] {
-					batch = append(batch, pl.Txn)
+			delivered := make(chan struct{})
+			go func() {
+				start := 0
+				for _, end := range cuts {
+					var batch []txn.SidetreeTxn
+					for _, pl := range plans[start:end] {
+						batch = append(batch, pl.Txn)
+					}
+					ledger.ch <- batch
+					start = end
 				}
-				ledger.ch <- batch
-				start = end
+				ledger.ch <- nil // quiescence: returns only after everything before it has been processed
+				close(delivered)
+			}()
+			select {
+			case <-delivered:
+			case <-time.After(3 * time.Minute):
+				// bounded progress: at most six small transactions; three minutes is four orders of magnitude more than they need
+				atomic.StoreInt32(&c15Hung, 1)
+				var kinds []string
+				for _, pl := range plans {
+					kinds = append(kinds, pl.Kind)
+				}
+				c.Violation(fmt.Sprintf("C15 the observer did not finish a notification of %d transactions within 3 minutes: a transaction keeps later ones from being processed (sequence=%v fault=%s)", len(plans), kinds, f.name),
+					map[string]interface{}{"sequence": kinds, "fault": f.name})
+				return
 			}
-			ledger.ch <- nil // quiescence: returns only after everything before it has been processed
 			obs.Stop()
 			// ---- oracle
 			hit := func(ti int, pl *txnPlan) bool {
